@@ -18,12 +18,40 @@ import progs
 from props import c05  # registers the format reasons
 
 
-def extra_classify(prog, ev):
-    f = prog.get("feat", [])
-    cls = []
-    if "omit" in f or "const-blocks" in f or any(x.startswith("type-") and progs.WIDTH.get(x[5:], 99) <= 8 for x in f):
-        cls.append("copy-of-omitted-blocks")
-    return cls
+def extra_classify(prog, ev, ctx):
+    """copy-of-omitted-blocks (known finding C17-K1): the rejected request was made on the copy and touches samples of
+    the signal for which the SOURCE file (decoded from its bytes before the copy) holds no DATA chunk, i.e. blocks that
+    exist there only as summaries.  Anything else rejected on a copy stays unclassified and is a violation."""
+    import json
+    sig = ev.get("sig")
+    s = (prog.get("model") or {}).get("sigs", {}).get(str(sig))
+    if s is None or ev.get("e") not in ("RdFsr", "RdStats", "RdLength"):
+        return []
+    after_copy = False
+    cov = []
+    for ln in ctx:
+        if ln.startswith('{"e":"Copy"'):
+            after_copy = True
+        elif ln.startswith('{"e":"Chunk","file":"a"'):
+            d = json.loads(ln)
+            if d["tt"] == 0 and d["ck"] == 2 and d["sig"] == sig and d["ok"]:
+                cov.append((d["ts"] - s.get("first", 0), d["ts"] - s.get("first", 0) + d["cnt"]))
+    if not after_copy:
+        return []
+    L = s.get("length", 0)
+    if ev["e"] == "RdFsr":
+        lo, hi = ev["start"], ev["start"] + ev["n"]
+    elif ev["e"] == "RdStats":
+        lo, hi = ev["start"], ev["start"] + ev["incr"] * ev["cnt"]
+    else:
+        lo, hi = 0, L
+    lo, hi = max(lo, 0), min(hi, L)
+    pos = lo
+    for a, b in sorted(cov):
+        if a > pos:
+            break
+        pos = max(pos, b)
+    return ["copy-of-omitted-blocks"] if pos < hi else []
 
 
 def run(tier):
@@ -35,7 +63,7 @@ def run(tier):
     if not ck.add_mc("JlsApiGen (abstract content shared by source and copy)", r):
         ck.violation({"where": "model", "config": "JlsApiGen_mc", "invariant": r.violated})
     P = []
-    n = 400 if thorough else 110
+    n = 5000 if thorough else 110
     for i in range(n):
         big = (i % 37 == 5)
         omit = (i % 6 == 0)
@@ -65,15 +93,34 @@ def run(tier):
                     rd.insert(-1, {"op": "stats", "sig": int(g), "start": st, "incr": incr, "cnt": cnt})
         rd_b = copy.deepcopy(rd)
         rd_b[0]["file"] = "b"
-        p["ops"] += rd + [{"op": "copy", "src": "a", "dst": "b"}, {"op": "liftfile", "file": "b"}] + rd_b
+        p["ops"] += rd + [{"op": "liftfile", "file": "a"}, {"op": "copy", "src": "a", "dst": "b"}, {"op": "liftfile", "file": "b"}] + rd_b
         p["model"] = progs.model_json(model)
         P.append(p)
+    # files without any FSR signal
+    for nanno in [0, 5, 140] + ([rng.randint(1, 260) for _ in range(25)] if thorough else []):
+        q, model = progs.nofsr_writer_program(rng, len(P) + 1, "c17-nofsr", nanno)
+        rd = progs.reader_ops(rng, model, nreads=0, with_defs=True)
+        rd.insert(-1, {"op": "annos", "sig": 0, "t": model["anno_ts"] // 2})
+        rd_b = copy.deepcopy(rd)
+        rd_b[0]["file"] = "b"
+        q["ops"] += rd + [{"op": "liftfile", "file": "a"}, {"op": "copy", "src": "a", "dst": "b"}, {"op": "liftfile", "file": "b"}] + rd_b
+        q["model"] = {"sigs": {}}
+        P.append(q)
+    # histories from the shape graph (spec/JlsShapes.tla)
+    import shapes
+    for q, model in shapes.programs(ck, rng, "c17-shape", thorough, 12000 if thorough else 500, x0=len(P)):
+        rd = shapes.reader_ops(rng, model, nreads=4)
+        rd_b = copy.deepcopy(rd)
+        rd_b[0]["file"] = "b"
+        q["ops"] += [{"op": "liftfile", "file": "a"}, {"op": "copy", "src": "a", "dst": "b"}, {"op": "liftfile", "file": "b"}] + rd + rd_b
+        q["model"] = progs.model_json(model)
+        P.append(q)
     # deterministic probe of known finding C17-K1 (copy of a file that has omitted blocks)
     probe = [{"op": "wopen"}, {"op": "source", "id": 1, "name": ["lit", "s"]},
              {"op": "signal", "id": 1, "src": 1, "dt": "f32", "rate": 1000, "spd": 160, "sdf": 16, "eps": 10, "sumdf": 10, "name": ["lit", "x"], "units": ["lit", "u"]},
              {"op": "fsr", "sig": 1, "id": 0, "n": 320, "gen": ["ramp", 7]}, {"op": "omit", "sig": 1, "en": 1},
              {"op": "fsr", "sig": 1, "id": 320, "n": 960, "gen": ["ramp", 7]}, {"op": "omit", "sig": 1, "en": 0},
-             {"op": "fsr", "sig": 1, "id": 1280, "n": 500, "gen": ["ramp", 7]}, {"op": "wclose"}, {"op": "copy", "src": "a", "dst": "b"},
+             {"op": "fsr", "sig": 1, "id": 1280, "n": 500, "gen": ["ramp", 7]}, {"op": "wclose"}, {"op": "liftfile", "file": "a"}, {"op": "copy", "src": "a", "dst": "b"},
              {"op": "ropen", "file": "b"}, {"op": "len", "sig": 1}, {"op": "rd", "sig": 1, "start": 600, "n": 8},
              {"op": "stats", "sig": 1, "start": 480, "incr": 160, "cnt": 3}, {"op": "rclose"}]
     P.append({"x": len(P) + 1, "kind": "c17-probe", "feat": ["omit", "type-f32"], "ops": probe,
